@@ -384,7 +384,7 @@ def concat(*collections):
     return itertools.chain(*collections)
 
 
-@specs.parameter('collection', utils.IteratorType)
+@specs.parameter('collection', yaqltypes.Iterator())
 @specs.name('len')
 @specs.extension_method
 def count_(collection):
